@@ -39,6 +39,8 @@ type GuardClause struct {
 }
 
 type LoopContract struct {
+	modifies   []*Clause // loop#n modifies ...: what the body may change among memory existing at loop entry
+	hasModifies bool
 	steps      []*Clause // per-iteration postconditions: old() = state at the head of the same iteration
 	invariants []*Clause
 	decreases  *Clause
@@ -1176,6 +1178,19 @@ func (p *Program) fillContract(fc *FuncContract, clauses []*rawClause, body *ast
 					continue
 				}
 				lc.decreases = cl
+			case "modifies":
+				lc.hasModifies = true
+				if strings.TrimSpace(sub.text) != "nothing" {
+					for _, part := range splitTopLevel(sub.text, ',') {
+						ms := &rawClause{kind: "modifies", text: strings.TrimSpace(part)}
+						cl, err := p.checkClauseAny(fc, ms, rc.where, loops[rc.ord-1].Pos())
+						if err != nil {
+							p.bindIssues = append(p.bindIssues, bindIssue{fc.key, err.Error()})
+							continue
+						}
+						lc.modifies = append(lc.modifies, cl)
+					}
+				}
 			case "unroll":
 				n, err := strconv.Atoi(sub.text)
 				if err != nil {
